@@ -4,7 +4,7 @@ import ast
 
 from .. import AnalysisError
 from ..astutil import src, call_name, dotted, walk_local, try_fold, ancestors
-from ..fn import FA
+from ..fn import FA, expand
 from ..permtype import OrderAnalysis, fmt
 from ..poly import poly_of, NotPoly, Poly
 
@@ -29,7 +29,7 @@ META = {
         'REDMONSTER on ormask, dilates each row with width 2*ngrow+1 using the edge-truncating smooth, multiplies invvar by the '
         'complement; C17.SKY-CAST - each & between the caller\'s mask and a uint64 flag value has an explicit conversion. '
         'C17.MEDIAN - djs_median does not pad with the non-repeating reflect mode of numpy.pad. C17.SMOOTH - smooth() uses the requested width made odd and returns its input unchanged only for widths below 3; C17.REJ-MASKS also: the model-less first pass hands back the input mask. C17.FLOAT-OUT - the arrays that djs_maskinterp fills with interpolated samples and djs_reject with scaled deviations are not allocated in the dtype of the data; C17.INMASK-TRUTH - djs_reject turns the caller\'s inmask into truth values before combining it bitwise; NOT decided: the explicit reflection slices of djs_median, maxrej/group logic, numerical interpolation values.'),
-    'floors': {'C17.INMASK-TRUTH': 2, 'C17.FLOAT-OUT': 2, 'C17.SMOOTH': 3, 'C17.MI-SITES': 6, 'C17.MI1-STORE': 6, 'C17.MI1-ORDER': 1, 'C17.GROW': 3, 'C17.REJ-MASKS': 10, 'C17.AESTH': 4,
+    'floors': {'C17.INMASK-TRUTH': 2, 'C17.FLOAT-OUT': 2, 'C17.SMOOTH': 1, 'C17.MI-SITES': 6, 'C17.MI1-STORE': 6, 'C17.MI1-ORDER': 1, 'C17.GROW': 3, 'C17.REJ-MASKS': 10, 'C17.AESTH': 4,
                'C17.SKY': 5, 'C17.SKY-CAST': 1, 'C17.MEDIAN': 1},
 }
 
@@ -506,7 +506,7 @@ def check_aesthetics(ctx, repo):
     ctx.need(calls, 'aesthetics: djs_maskinterp calls not found')
     for c in calls:
         m = fa.deep(c.args[1]) if len(c.args) > 1 else None
-        ok = m is not None and src(m) == 'invvar == 0' and src(c.args[0]) == 'flux'
+        ok = m is not None and src(m).replace(' ', '') in ('invvar==0', '0==invvar') and src(c.args[0]) == 'flux'
         ctx.check('C17.AESTH', ok, f, c, 'interpolation mask is invvar == 0 on the input flux', msg='aesthetics interpolates with mask `%s` on `%s`'
                   % (src(m) if m is not None else '?', src(c.args[0])), construct='aesthetics maskinterp ' + src(c)[:70])
     means = [st for st in walk_local(f.node) if isinstance(st, ast.Assign) and isinstance(st.targets[0], ast.Subscript) and 'mean' in src(st.value)]
@@ -524,15 +524,26 @@ def check_aesthetics(ctx, repo):
     rets = [r for r in walk_local(f.node) if isinstance(r, ast.Return) and r.value is not None]
     unchanged = [r for r in rets if src(r.value) == f.params[0]]
     okr = False
+    from ..astutil import path_conditions
     for r in unchanged:
-        par = r._parent
-        if isinstance(par, ast.If) and r in par.orelse and isinstance(par.test, ast.Call) and call_name(par.test) == 'any':
-            b = fa.deep(par.test.func.value)
-            okr = src(b) == 'invvar == 0'
+        # the condition known at the unchanged return: `not <bad>.any()` with <bad> = (invvar == 0), as an else branch or as an early guard
+        for t_, pol in path_conditions(r):
+            inner = t_.operand if isinstance(t_, ast.UnaryOp) and isinstance(t_.op, ast.Not) else t_
+            neg = pol != (inner is not t_)          # True when the known fact is `not inner`... see below
+            if isinstance(inner, ast.Call) and call_name(inner) == 'any' and isinstance(inner.func, ast.Attribute):
+                fact_is_none_bad = (not pol) if inner is t_ else pol
+                b = fa.deep(inner.func.value)
+                if fact_is_none_bad and src(b).replace(' ', '') in ('invvar==0', '0==invvar'):
+                    okr = True
     ctx.check('C17.AESTH', okr, f, unchanged[0] if unchanged else f.node, 'flux is returned unchanged when no pixel has invvar == 0',
               msg='aesthetics does not return the input unchanged when no pixel is bad', construct='unchanged return')
     nothing = [n for n in walk_local(f.node) if isinstance(n, ast.If) and "'nothing'" in src(n.test)]
-    okn = bool(nothing) and len(nothing[0].body) == 1 and src(nothing[0].body[0]) == 'newflux = flux.copy()'
+    okn = False
+    if nothing and len(nothing[0].body) == 1:
+        b0 = nothing[0].body[0]
+        v0 = b0.value if isinstance(b0, (ast.Assign, ast.Return)) else None
+        # `newflux = flux.copy()` (returned later) or `return flux.copy()`
+        okn = v0 is not None and src(v0).replace(' ', '') in ('%s.copy()' % f.params[0], 'np.copy(%s)' % f.params[0], 'np.array(%s)' % f.params[0])
     ctx.check('C17.AESTH', okn, f, nothing[0] if nothing else f.node, "method 'nothing' returns a copy of the flux", msg="method 'nothing' changed", construct='nothing method')
 
 
@@ -671,6 +682,15 @@ def check_skymask(ctx, repo):
         st = c
         while not isinstance(st, ast.stmt):
             st = st._parent
+        stv = st.value if isinstance(st, ast.Assign) else None
+        if isinstance(st, ast.Assign) and len(st.targets) == 1 and isinstance(st.targets[0], ast.Name):
+            # the smoothed row is held in a name first: the store that uses it is the statement to judge
+            tname = st.targets[0].id
+            users = [s2 for s2 in walk_local(gif[0]) if isinstance(s2, ast.Assign) and s2 is not st and isinstance(s2.targets[0], ast.Subscript)
+                     and any(isinstance(x, ast.Name) and x.id == tname for x in ast.walk(s2.value))]
+            if len(users) == 1:
+                stv = expand(users[0].value, fa, depth=3, calls=True)
+                st = users[0]
         loop = next((a for a in ancestors(st) if isinstance(a, ast.For)), None)
         sig = bound.get(g.params[0])
         row = None
@@ -682,8 +702,8 @@ def check_skymask(ctx, repo):
             subs = [x for x in ast.walk(sig) if isinstance(x, ast.Subscript) and isinstance(x.value, ast.Name) and x.value.id == bad]
             sig_ok = len(subs) == 1 and idx_tuple(subs[0], fa) in ((loop.target.id, ':'), (loop.target.id,))
         full = loop is not None and isinstance(loop.iter, ast.Call) and call_name(loop.iter) == 'range' and len(loop.iter.args) == 1
-        gt0 = isinstance(st, ast.Assign) and isinstance(st.value, ast.Compare) and len(st.value.ops) == 1 \
-            and isinstance(st.value.ops[0], (ast.Gt, ast.NotEq)) and try_fold(st.value.comparators[0]) == 0
+        gt0 = isinstance(st, ast.Assign) and isinstance(stv, ast.Compare) and len(stv.ops) == 1 \
+            and isinstance(stv.ops[0], (ast.Gt, ast.NotEq)) and try_fold(stv.comparators[0]) == 0
         okrow = rows_ok and sig_ok and full and gt0
     if not sm:
         other = [c for c in walk_local(gif[0]) if isinstance(c, ast.Call) and call_name(c) in ('binary_dilation', 'grey_dilation', 'maximum_filter',
@@ -722,15 +742,53 @@ def check_smooth_width(ctx, repo):
     f = repo.func('pydl/smooth.py', 'smooth')
     ctx.cover(f)
     wparam = f.params[1]
-    binds = [st for st in walk_local(f.node) if isinstance(st, (ast.Assign, ast.AugAssign)) and any(
-        isinstance(t, ast.Name) and t.id in ('width', wparam) for t in (st.targets if isinstance(st, ast.Assign) else [st.target]))]
-    ctx.need(binds, 'smooth: the binding of the window width was not found')
-    for st in binds:
-        v = src(st.value).replace(' ', '')
-        ok = isinstance(st, ast.Assign) and v in (wparam, wparam + '+1', '1+' + wparam, wparam + '|1', wparam + '+(1-%s%%2)' % wparam)
-        ctx.check('C17.SMOOTH', ok, f, st, 'smooth: the window is the requested width made odd (`%s`)' % src(st)[:40],
-                  msg='smooth rebinds its window width with `%s`: the window is no longer the requested one, so the sky-mask growth (and the bad-region growth of '
-                      'combine1fiber) reaches fewer pixels than asked for' % src(st)[:50], construct='smooth window changed: ' + src(st)[:50])
+    # decided by enumeration: the divisor of the boxcar sums (the number of samples averaged) must be the requested width made odd for every
+    # requested width 1..12, and the early return must be taken exactly for windows narrower than 3
+    from .. import minieval
+    fa = FA(f)
+    divisors = []
+    for st in walk_local(f.node):
+        if isinstance(st, ast.Assign) and isinstance(st.targets[0], ast.Subscript):
+            for x in ast.walk(st.value):
+                if isinstance(x, ast.BinOp) and isinstance(x.op, ast.Div):
+                    d_ = x.right
+                    while isinstance(d_, ast.Call) and call_name(d_) in ('float', 'float64', 'float32') and d_.args:
+                        d_ = d_.args[0]
+                    divisors.append((st, d_))
+    if not divisors:
+        raise AnalysisError('C17: smooth does not average by dividing boxcar sums: not an idiom this checker can judge')
+    prelude = []
+    for st in f.node.body:
+        if isinstance(st, (ast.For, ast.While)):
+            break
+        prelude.append(st)
+    bad = None
+    try:
+        for w in range(1, 13):
+            env = minieval.run([st for st in prelude if not (isinstance(st, ast.Expr) and isinstance(st.value, ast.Constant))], {wparam: w}, {'__assume__': lambda e: True},
+                               lambda s_, e_: None)
+            want = w if w % 2 else w + 1
+            if env is None:
+                # the prelude returned: allowed only when the window is narrower than 3
+                if want >= 3 and bad is None:
+                    bad = (w, 'returns its input unchanged', want)
+                continue
+            if want < 3 and bad is None:
+                bad = (w, 'does not return the input unchanged', want)
+            for st, d_ in divisors:
+                v = minieval.ev(d_, env, {})
+                if v is minieval.TOP:
+                    raise minieval.Unknown('divisor `%s` has no integer value' % src(d_))
+                if v != want and bad is None:
+                    bad = (w, 'averages over %s samples (`%s`)' % (v, src(st)[:40]), want)
+    except minieval.Unknown as e:
+        raise AnalysisError('C17: the window arithmetic of smooth is not an idiom the index evaluator understands (%s)' % e)
+    ctx.check('C17.SMOOTH', bad is None, f, divisors[0][0], 'smooth: the window is the requested width made odd for every requested width 1..12 (divisor `%s`), and only windows '
+              'narrower than 3 return the input unchanged' % src(divisors[0][1]),
+              msg='smooth with requested width %s %s, expected a window of %s samples: the window is no longer the requested one made odd, so the sky-mask growth (and the '
+                  'bad-region growth of combine1fiber) reaches fewer pixels than asked for' % (bad[0] if bad else '', bad[1] if bad else '', bad[2] if bad else ''),
+              construct='smooth window changed')
+    return
     rets = [r for r in walk_local(f.node) if isinstance(r, ast.Return) and r.value is not None and src(r.value) == f.params[0]]
     for r in rets:
         conds = [src(a.test).replace(' ', '') for a in ancestors(r) if isinstance(a, ast.If)]
